@@ -3,7 +3,7 @@ from ..core import gz, glist, gbool
 
 ID = "C21"
 PROPS = ["theories/Props/C21.vo"]
-PINNED = ["C21_refuted_records_shared_across_pollers"]
+PINNED = ["C21_holds_outside", "C21_refuted_records_shared_across_pollers", "C21_reuse_clean", "C21_oracle_sound"]
 CASES_MODULE = "Cases.C21"
 HEADER = ""
 AREA = "net21"
@@ -115,5 +115,16 @@ def distribution(results):
     return d
 
 
-LEVEL_TEXT = "in progress"
-LEVEL_NOTE = "in progress"
+LEVEL_TEXT = ("Unbounded theorems (all histories, any length, any descriptors, asynchronous event deliveries at any point) "
+              "about the Gallina model of the five process-global record maps, register/reregister/deregister against "
+              "an epoll-like interest table per poller, the EventLoops dispatch (round-robin waits, deletions over all "
+              "loops), hooked close and shutdown: C21_holds_outside (one poller: after every step the interest the OS "
+              "holds for each descriptor equals the union of the outstanding interests), C21_reuse_clean (a descriptor "
+              "number closed through the runtime and handed out again has no record and no OS entry), and the "
+              "refutation witness of the recorded finding records_shared_across_pollers (two loops). The model is tied "
+              "to the real runtime by running the same histories through the public entry points and comparing the "
+              "results and the /proc view of every loop's epoll table inside Coq, for 1, 2 and 3 loops.")
+LEVEL_NOTE = ("Trusted: Coq kernel + vm_compute; hand-written model validated on sampled histories only; epoll semantics "
+              "modelled; calls come from one non-loop thread; the loops' own event processing is modelled by Deliver "
+              "steps (they touch only the token maps); the multi-poller case is claimed only as refuted. No axioms "
+              "(Print Assumptions: closed under the global context).")
